@@ -307,6 +307,31 @@ def loop_scenarios(ctx: RunCtx) -> BoundedResult:
                                              "input": {"occurrences": k, "logic": logic}, "finding_key": f"per-occurrence-arguments:{logic}"})
                 except Exception as e:
                     res.failures.append({"what": f"{backend}: scenario could not run: {type(e).__name__}: {str(e)[:150]}", "finding_key": f"{backend}:scenario-error"})
+        # one status change of a source task = one occurrence: the source invocation really runs (status report, then result report), OR trigger on SUCCESS
+        for kind in ("status", "result"):
+            n += 1
+            with real_app(backend) as app:
+                try:
+                    from pynenc.invocation.status import InvocationStatus as S
+                    from pynenc.trigger.trigger_builder import TriggerBuilder
+                    from .realapp import runner_ctx
+                    source, target = app.task(verif_tasks.noop), app.task(verif_tasks.add)
+                    b = TriggerBuilder().on_status(source, S.SUCCESS) if kind == "status" else TriggerBuilder().on_any_result(source)
+                    app.trigger.register_task_triggers(target, b.with_logic("or").with_args_static({"x": 1}))
+                    src_inv = source()
+                    ctx_r = runner_ctx("trigger-scenario-runner")
+                    got = list(app.orchestrator.get_invocations_to_run(1, ctx_r))
+                    for inv in got:
+                        inv.run(ctx_r)
+                    pending = len(app.trigger.get_valid_conditions())
+                    app.trigger.trigger_loop_iteration()
+                    app.trigger.trigger_loop_iteration()
+                    launches = len(list(app.orchestrator.get_task_invocation_ids(target.task_id)))
+                    if launches != 1 or pending != 1:
+                        res.failures.append({"what": f"{backend}: one {kind} change of the source task (run to SUCCESS) recorded {pending} pending occurrence(s) and "
+                                                     f"launched the triggered task {launches} time(s)", "input": {"condition": kind}, "finding_key": f"{backend}:status-occurrence:{kind}"})
+                except Exception as e:
+                    res.failures.append({"what": f"{backend}: scenario could not run: {type(e).__name__}: {str(e)[:150]}", "finding_key": f"{backend}:scenario-error"})
         # a run id whose claim is held by another runner must not stop the others: refuse the j-th claim attempt of one iteration
         for k, j in ((2, 0), (3, 0), (3, 1)):
             n += 1
